@@ -181,17 +181,27 @@ def rdRtIn : Rd RtIn := do
   let _rx ← Rd.bool
   pure { mtu := m, calls := cs }
 
-def rdPktObs : Rd C14.PktObs := do
-  let p ← Rd.bytes; let r ← rdResParsed; let h ← Rd.bool
-  pure { payload := p, res := r, head := h }
+/-- `<payload> <res view> <head> <res view>`: the second view is what the second receiver reports — ONE
+    H265Packet with SetZeroAllocation(true) for the whole history, read right after the payload was
+    decoded -/
+def rdPktObs : Rd (C14.PktObs × Res Parsed) := do
+  let p ← Rd.bytes; let r ← rdResParsed; let h ← Rd.bool; let z ← rdResParsed
+  pure ({ payload := p, res := r, head := h }, z)
 
-def rdRtObs : Rd (List (Option (List C14.PktObs))) :=
+abbrev RtObs2 := List (Option (List (C14.PktObs × Res Parsed)))
+
+def rdRtObs : Rd RtObs2 :=
   Rd.list (do
     let t ← Rd.tok
     match t with
     | "panic" => pure none
     | "ok" => do let l ← Rd.list rdPktObs; pure (some l)
     | _ => Rd.fail)
+
+/-- the observation of the receiver under test / of the zero-allocation receiver -/
+def RtObs2.main (o : RtObs2) : List (Option (List C14.PktObs)) := o.map (·.map (·.map (·.1)))
+def RtObs2.zero (o : RtObs2) : List (Option (List C14.PktObs)) :=
+  o.map (·.map (·.map fun (p, z) => { p with res := z }))
 
 /-- `C14.callOk` without what the statement of C14 does not say: that payloads fit the MTU (that is
     C08; the MTU occurs in `callOk` only in that conjunct, which is left out — an MTU argument raised
@@ -264,14 +274,18 @@ def rtExplainedF : List RtCall → List (Option (List C14.PktObs)) → Bool
     `rtWF`, the hypothesis of `c14_roundtrip`): outside it nothing is claimed (correspondence only;
     `rtNoPanic` is evaluated there but does not count) -/
 def rt : Handler :=
-  mkHandler rdRtIn rdRtObs (fun i => rtObsF i.mtu 0 i.calls)
-    (fun i o => if rtWFF i.mtu i.calls then rtOkRelaxedF i.calls o else C14.rtNoPanic o)
+  -- H265Packet decodes each payload on its own with SetZeroAllocation(true) too: the model gives the
+  -- second receiver the same result, and the predicate is evaluated on both
+  mkHandler rdRtIn rdRtObs (fun i => (rtObsF i.mtu 0 i.calls).map (·.map (·.map fun p => (p, p.res))))
+    (fun i o =>
+      let f := fun o => if rtWFF i.mtu i.calls then rtOkRelaxedF i.calls o else C14.rtNoPanic o
+      f o.main && f o.zero)
     (fun i => rtWFF i.mtu i.calls)
     (fun i _ => if rtKFF i.mtu 0 i.calls then some "c14_donl_fu" else none)
     -- a failure inside the region counts as the KNOWN finding also when the bytes differ from the
     -- model's (other cut points, …), as long as undoing the recorded defect makes the predicate hold;
     -- a call made without AddDONL is never excused
-    (fun i o => rtWFF i.mtu i.calls && rtExplainedF i.calls o)
+    (fun i o => rtWFF i.mtu i.calls && rtExplainedF i.calls o.main && rtExplainedF i.calls o.zero)
 
 /-! ### c08.h265 -/
 
